@@ -599,6 +599,8 @@ func runC12(c *Ctx, r *Report) {
 	}
 	r.Doc("R-C12.13", "no channel can be closed twice: a close sits neither in a loop the channel outlives nor in a closure that several validators or calls run, unless under a sync.Once (the second close panics on a goroutine nothing recovers — a history with two refused blocks takes the process down)")
 	channelsClosedOnce(c, r, "R-C12.13")
+	r.Doc("R-C12.15", "the head scan counts predecessor links only (adopted from C02: history the fetcher rescued through a skip pointer past an undecodable block belongs to the loaded log only if its newest entry becomes a head — a scan that also counts skip pointers drops it from the view although no block of it was bad)")
+	importRules(c, r, "C02", []string{"R-C02.1"}, "R-C12.15")
 	r.Doc("R-C12.14", "no possibly-nil pointer of a concrete type is stored in an interface: a nil *T inside a non-nil interface passes every `!= nil` guard and is dereferenced by the first method call (a clock helper that returns nil for a load that yielded no entry)")
 	{
 		var mayBeNil func(v ssa.Value, depth int, seen map[ssa.Value]bool) bool
